@@ -1,7 +1,7 @@
 (* Spike C13: syncx.Pool ownership.  Get/Put are atomic per P (the goroutine is pinned); the only
    cross-P interaction is stealing a whole block from another P's chain (one atomic popTail).
    Steal targets are chosen by an oracle, which over-approximates every timing of getSlow. *)
-From Coq Require Import List Arith Lia Bool.
+From Coq Require Import List Arith Lia Bool Permutation.
 Import ListNotations.
 
 Section Pool.
@@ -100,5 +100,59 @@ Definition step (w : world) (a : act) : world * option obj :=
 (* every object the pool or a caller holds is distinct, and below the New counter *)
 Definition Inv (w : world) : Prop :=
   NoDup (stored w ++ out w) /\ Forall (fun x => x < fresh w) (stored w ++ out w).
+
+(* ---- bookkeeping: replacing one P's state ---- *)
+Lemma stored_split (g : plocal -> list obj) : forall (l0 : list plocal) p l,
+  nth_error l0 p = Some l ->
+  exists rest, Permutation (concat (map g l0)) (g l ++ rest) /\
+               forall l', Permutation (concat (map g (upd l0 p l'))) (g l' ++ rest).
+Proof.
+  induction l0 as [|a l0 IH]; intros p l H; [destruct p; discriminate|].
+  destruct p as [|p]; simpl in *.
+  - inversion H; subst. exists (concat (map g l0)). split; [reflexivity|intros; reflexivity].
+  - destruct (IH p l H) as (rest & P1 & P2). exists (g a ++ rest). split.
+    + rewrite P1. rewrite !app_assoc. apply Permutation_app_tail. apply Permutation_app_comm.
+    + intros l'. rewrite (P2 l'). rewrite !app_assoc. apply Permutation_app_tail. apply Permutation_app_comm.
+Qed.
+
+Lemma last_removelast (b : block) : b <> [] -> Permutation b (last b 0 :: removelast b).
+Proof.
+  intros H. rewrite (app_removelast_last 0 H) at 1. apply Permutation_sym, Permutation_cons_append.
+Qed.
+
+Lemma NoDup_perm_fresh (l : list obj) (n : nat) :
+  NoDup l -> Forall (fun x => x < n) l -> NoDup (n :: l).
+Proof.
+  intros H F. constructor; auto. intros Hin. rewrite Forall_forall in F. specialize (F n Hin). lia.
+Qed.
+
+Lemma Forall_lt_S (l : list obj) n : Forall (fun x => x < n) l -> Forall (fun x => x < S n) l.
+Proof. intros H. eapply Forall_impl; [|exact H]. simpl. intros; lia. Qed.
+
+(* the objects known to the system after a step are a permutation of those before,
+   or those plus one fresh object, or a subset (GC) *)
+Definition all (w : world) := stored w ++ out w.
+
+Lemma inv_from_perm w w' :
+  Inv w -> Permutation (all w') (all w) -> fresh w' = fresh w -> Inv w'.
+Proof.
+  intros [Hn Hf] HP Hfr. unfold Inv. fold (all w) in *. fold (all w').
+  split.
+  - eapply Permutation_NoDup; [symmetry; exact HP|exact Hn].
+  - rewrite Hfr. rewrite Forall_forall in *. intros x Hx. apply Hf. eapply Permutation_in; eauto.
+Qed.
+
+Lemma inv_new w :
+  Inv w -> Inv {| ps := ps w; out := fresh w :: out w; fresh := S (fresh w) |}.
+Proof.
+  intros [Hn Hf]. unfold Inv, stored in *. simpl.
+  assert (HP : Permutation (concat (map stored_p (ps w)) ++ fresh w :: out w)
+                           (fresh w :: concat (map stored_p (ps w)) ++ out w))
+    by (symmetry; apply Permutation_middle).
+  split.
+  - eapply Permutation_NoDup; [symmetry; exact HP|]. now apply NoDup_perm_fresh.
+  - rewrite Forall_forall. intros x Hx. eapply Permutation_in in Hx; [|exact HP].
+    destruct Hx as [<-|Hx]; [lia|]. rewrite Forall_forall in Hf. specialize (Hf x Hx). lia.
+Qed.
 
 End Pool.
